@@ -45,7 +45,7 @@ COMPONENTS = {
 }
 EXPECTED_PROBES = ["edit-of-item-removed-earlier", "same-item-added-twice", "whitespace-variant-key", "same-key-overridden-twice", "model-rejects-operation", "last-key-of-section-removed",
                    "add-creates-section", "target-changed-by-override", "remove-then-add-same-key", "value-contains-delimiter",
-                   "cli-several-options-of-one-kind", "query-list-items", "query-item-value", "table-form-section-edited",
+                   "cli-several-options-of-one-kind", "multi-line-value", "query-list-items", "query-item-value", "table-form-section-edited",
                    "second-parser-after-edits"]
 
 
@@ -378,12 +378,34 @@ def _new_key(rng, spec, sec_name):
     return rng.choice(["note", "author", "a b"])
 
 
+def _multiline_values(ops, seed):
+    """A quarter of the override/add values of function, form and table sections are spread over two or three lines
+    (in the hand-edited file: indented continuation lines; on the command line and in the API: embedded newlines).
+    Drawn from a side stream so that everything else about the scenario is as before."""
+    rng = random.Random(mix64(seed, "c14-multiline"))
+    for o in ops:
+        v = o.get("value")
+        sec = o["section"]
+        if not v or not (sec in mg.FUNCTION_SECTIONS or sec == "Potential-Form" or sec.startswith("Table-Form:")):
+            continue
+        if rng.random() >= 0.25:
+            continue
+        cut = [i for i, ch in enumerate(v) if ch == " " and 0 < i < len(v) - 1 and v[i - 1] not in " \n" and v[i + 1] not in " \n#;"]
+        if not cut:
+            continue
+        for i in sorted(rng.sample(cut, min(len(cut), rng.randint(1, 2)))):
+            v = v[:i] + "\n" + v[i + 1:]
+        o["value"] = v
+        o["multiline"] = True
+
+
 def gen_scenario(seed, tier="quick"):
     rng = random.Random(seed)
     spec = mg.gen_model(rng, {"nr_max": 10, "nrho_max": 5, "max_species": 3, "tables_prob": 0.25, "synonym_prob": 0.15,
                               "placeholders_prob": 0.3})
     route = "cli" if rng.random() < 0.5 else "api"
     ops = gen_ops(rng, spec, route)
+    _multiline_values(ops, seed)
     if route == "cli":
         action = rng.choice(["tabulate", "tabulate", "tabulate", "list-items", "list-item-labels", "item-value"])
     else:
@@ -693,6 +715,8 @@ def op_features(sc):
             f.add("value-contains-delimiter")
         if o["section"].startswith("Table-Form:"):
             f.add("table-form-section-edited")
+        if o.get("multiline"):
+            f.add("multi-line-value")
     if any(v >= 2 for v in secs.values()):
         f.add("two-ops-same-section")
     return f
@@ -785,6 +809,8 @@ def judge(sc, ref, res):
                     else:
                         q = sc["query"]
                         want = [val for s, k, val in ref["items"] if s == q["section"] and k == norm_key(q["key"])]
+                    # a multi-line value is printed verbatim, i.e. over several lines
+                    want = [l for w in want for l in w.split("\n") if l != ""]
                     if sorted(lines) != sorted(want):
                         kind = _list_diff_kind(lines, want)
                         v.append({"class": "C14/query-output-differs/action=%s/%s" % (action, kind),
